@@ -83,6 +83,9 @@ func (c *c07Case) Run(ctx *core.Ctx) {
 		if lay == "twin" {
 			layName = "a"
 		}
+		if lay == "a-ext" { // the name written with its extension
+			layName = "a.vuego"
+		}
 		if lay != "none" {
 			if c.PageSrc == "fm" {
 				pfm = "---\nlayout: " + layName + "\n---\n"
@@ -146,9 +149,10 @@ func (c *c07Case) Run(ctx *core.Ctx) {
 			}
 			first = false
 			dir := path.Dir(cur)
-			next := "layouts/" + l + ".vuego"
-			if exists(path.Join(dir, l+".vuego")) {
-				next = path.Join(dir, l+".vuego")
+			base := strings.TrimSuffix(l, ".vuego")
+			next := "layouts/" + base + ".vuego"
+			if exists(path.Join(dir, base+".vuego")) {
+				next = path.Join(dir, base+".vuego")
 			}
 			cur = next
 			curLay = ""
@@ -354,7 +358,7 @@ func init() {
 		Enumerate: func(tier string, emit func(core.Case)) {
 			lays := []string{"none", "a", "b", "base", "self", "missing"}
 			for _, dir := range []string{"", "pages"} {
-				for _, pl := range []string{"none", "a", "b", "base", "missing", "twin"} {
+				for _, pl := range []string{"none", "a", "b", "base", "missing", "twin", "a-ext"} {
 					if pl == "twin" && dir == "" {
 						continue
 					}
